@@ -28,7 +28,8 @@ ASSUMPTIONS = [
     "exact covariance C_t = b (C_{t-1} + ridge_t V V') + G G' where ridge_t is "
     "what the Distributed Shampoo configuration folds into the sketch eigenvalues "
     "per step (0 for Tearfree/OCO, whose epsilon sits inside the inversion)",
-    "all comparisons of l, t, r are normalised by ||C|| (tau = 50 d eps ||C||); "
+    "all comparisons of l, t, r are normalised by ||C||: tau_t = 50 d eps sum_s b^(t-s) ||C_s|| "
+    "(one rounding contribution per step, discounted like the covariance); "
     "inverse roots are compared with the conditioning-derived relative tolerance "
     "tau/((l+t) p) and skipped (counted ambiguous-entries) when l+t < 100 tau",
     "Tearfree Sketchy runs in float32 (its NaN guard hard-codes float32), others float64/float32 as the API computes",
@@ -170,7 +171,9 @@ class Tracker:
     s_old = (self.V * lold_r) @ self.V.T
     self.C = b * (self.C + ridge_prev * (self.V @ self.V.T)) + gmat @ gmat.T
     cn = max(float(np.linalg.norm(self.C, 2)), 1e-300)
-    tau = 50 * d * self.unit * cn + self.extra_abs
+    # rounding accumulates over the history: every step contributes O(d u ||C_s||), discounted like C itself
+    self.acc_norm = b * getattr(self, "acc_norm", 0.0) + cn
+    tau = 50 * d * self.unit * self.acc_norm + self.extra_abs
     # structure
     gram = V.T @ V
     offd = gram - np.diag(np.diag(gram))
